@@ -332,17 +332,17 @@ package encoder
 // ---------------------------------------------------------------- string emitters (C17, C03)
 //@ spec unsafeByte(c) := c < 32 || c == '"' || c == 92
 //@ spec unsafeHTML(c) := unsafeByte(c) || c == '<' || c == '>' || c == '&'
-//@ tablelemma[C17,C03,C06] needEscape(j, v) := v <==> unsafeByte(j)
-//@ tablelemma[C17,C03,C06] needEscapeHTML(j, v) := v <==> unsafeHTML(j)
-//@ tablelemma[C17,C03,C06] needEscapeNormalizeUTF8(j, v) := v <==> (unsafeByte(j) || j >= 128)
-//@ tablelemma[C17,C03,C06] needEscapeHTMLNormalizeUTF8(j, v) := v <==> (unsafeHTML(j) || j >= 128)
+//@ tablelemma[C17,C03] needEscape(j, v) := v <==> unsafeByte(j)
+//@ tablelemma[C17,C03] needEscapeHTML(j, v) := v <==> unsafeHTML(j)
+//@ tablelemma[C17,C03] needEscapeNormalizeUTF8(j, v) := v <==> (unsafeByte(j) || j >= 128)
+//@ tablelemma[C17,C03] needEscapeHTMLNormalizeUTF8(j, v) := v <==> (unsafeHTML(j) || j >= 128)
 //@ spec apartS(d, s) := cap(d) == 0 || len(s) == 0 || ptrOf(d) + cap(d) <= ptrOf(s) || ptrOf(s) + len(s) <= ptrOf(d)
 
 //@ func stringToUint64Slice(s) (r)
 //@   inline
 
 //@ func appendString(buf, s) (res)
-//@   props C17 C03 C06
+//@   props C17 C03
 //@   requires apartS(buf, s)
 //@   swar needEscape
 //@   nomerge
@@ -364,7 +364,7 @@ package encoder
 //@   loop 3: decreases len(s) - j
 
 //@ func appendHTMLString(buf, s) (res)
-//@   props C17 C03 C06
+//@   props C17 C03
 //@   requires apartS(buf, s)
 //@   swar needEscapeHTML
 //@   nomerge
@@ -386,12 +386,12 @@ package encoder
 //@   loop 3: decreases len(s) - j
 
 // UTF-8 first-byte table: ASCII, invalid, or (accept-range index << 4 | sequence length)
-//@ tablelemma[C17,C03,C06] first(j, v) := (j < 128 ==> v == 240) && (j >= 128 && j < 194 ==> v == 241) && (j >= 245 ==> v == 241) && (j >= 194 && j < 224 ==> v == 2) && (j == 224 ==> v == 19) && (j >= 225 && j < 237 ==> v == 3) && (j == 237 ==> v == 35) && (j >= 238 && j < 240 ==> v == 3) && (j == 240 ==> v == 52) && (j >= 241 && j < 244 ==> v == 4) && (j == 244 ==> v == 68)
+//@ tablelemma[C17,C03] first(j, v) := (j < 128 ==> v == 240) && (j >= 128 && j < 194 ==> v == 241) && (j >= 245 ==> v == 241) && (j >= 194 && j < 224 ==> v == 2) && (j == 224 ==> v == 19) && (j >= 225 && j < 237 ==> v == 3) && (j == 237 ==> v == 35) && (j >= 238 && j < 240 ==> v == 3) && (j == 240 ==> v == 52) && (j >= 241 && j < 244 ==> v == 4) && (j == 244 ==> v == 68)
 //@ spec cont(c) := c >= 128 && c <= 191
 
 // states: 0 valid, 1 error, 2 U+2028, 3 U+2029
 //@ func decodeRuneInString(s) (state, size)
-//@   props C17 C03 C06
+//@   props C17 C03
 //@   requires len(s) >= 1
 //@   ensures 1 <= size && size <= len(s) && size <= 4 && 0 <= state && state <= 3
 //@   ensures state != 0 && state != 2 && state != 3 ==> size == 1
@@ -406,7 +406,7 @@ package encoder
 //@   assigns nothing
 
 //@ func appendNormalizedString(buf, s) (res)
-//@   props C17 C03 C06
+//@   props C17 C03
 //@   requires apartS(buf, s)
 //@   swar needEscapeNormalizeUTF8
 //@   nomerge
@@ -428,7 +428,7 @@ package encoder
 //@   loop 3: decreases len(s) - j
 
 //@ func appendNormalizedHTMLString(buf, s) (res)
-//@   props C17 C03 C06
+//@   props C17 C03
 //@   requires apartS(buf, s)
 //@   swar needEscapeHTMLNormalizeUTF8
 //@   nomerge
